@@ -1,4 +1,5 @@
 //@weave-into read-fonts/src/font_data.rs
+//@uses check_in_bounds
 // C01 (U01.1 / U01.2): the byte-access primitives every parser is built on. For every offset / count / range
 // over the WHOLE usize domain (so every wrap-around is covered) and every buffer of symbolic length <= 24:
 // a read is Ok/Some exactly when it lies inside the buffer, yields the big-endian decoding of those bytes, and
@@ -183,5 +184,43 @@ mod verif_c01_font_data {
         kani::cover!(n > usize::MAX / 2);
         kani::cover!(fits && n == 3);
         kani::cover!(v.is_ok() && c2.pos == 5);
+    }
+
+    // ---- modular step: check_in_bounds carries a woven kani::ensures contract (kani/read-fonts/contracts.json);
+    // it is proved once against its body, and position()/finish() are then verified against the CONTRACT only
+    impl kani::Arbitrary for ReadError {
+        fn any() -> Self {
+            match kani::any::<u8>() % 4 {
+                0 => ReadError::OutOfBounds,
+                1 => ReadError::InvalidArrayLen,
+                2 => ReadError::ValidationError,
+                _ => ReadError::NullOffset,
+            }
+        }
+    }
+    //@harness unit=U01.2m props=C01 tier=quick level=bounded bound="buffer length symbolic <=24 B, offset over all of usize" timeout=300 fns=FontData::check_in_bounds contract=check_in_bounds
+    #[kani::proof_for_contract(FontData::check_in_bounds)]
+    fn check_in_bounds_contract() {
+        let buf: [u8; N] = kani::any();
+        let (d, _len) = any_data(&buf);
+        let off: usize = kani::any();
+        let _ = d.check_in_bounds(off);
+        kani::cover!(true);
+    }
+    //@harness unit=U01.2m props=C01 tier=quick level=bounded bound="buffer length symbolic <=24 B, any advance" timeout=300 fns=Cursor::position,Cursor::finish note="callers verified against the callee's contract (kani::stub_verified), not its body"
+    #[kani::proof]
+    #[kani::stub_verified(FontData::check_in_bounds)]
+    fn cursor_position_finish_modular() {
+        let buf: [u8; N] = kani::any();
+        let (d, len) = any_data(&buf);
+        let mut c = d.cursor();
+        let n: usize = kani::any();
+        c.advance_by(n);
+        let p = c.position();
+        assert!(p.is_ok() == (n <= len));
+        if let Ok(p) = p { assert!(p == n); }
+        assert!(c.finish(()).is_ok() == (n <= len));
+        kani::cover!(n > len);
+        kani::cover!(n == len);
     }
 }
